@@ -41,7 +41,11 @@ impl Qibla {
         let lat_rads = f64::from(coords.latitude).to_radians();
         let x = f64::from(coords.longitude).to_radians() - Self::KAABA_LONGITUDE.to_radians();
         let y = lat_rads.cos() * Self::KAABA_LATITUDE.to_radians().tan() - lat_rads.sin() * x.cos();
-        let degrees = x.sin().atan2(y).to_degrees();
+        let mut degrees = x.sin().atan2(y).to_degrees();
+        // atan2 yields -180 as well as 180 for due south; keep the direction in (-180, 180].
+        if degrees <= -180. {
+            degrees += 360.;
+        }
         Self { coords, degrees }
     }
 
